@@ -6,11 +6,11 @@ from . import oracles as O
 from . import small as SM
 
 CONFIG = {
-    'C01': dict(xcheck=True, streams=[('td_class', 480), ('td_wf', 880), ('td_coarse', 320), ('fail_wf', 200), ('panic', 240), ('multi', 40)], keep='om'),
-    'C02': dict(streams=[('td_exact', 880), ('td_wf', 480), ('td_mid', 160), ('panic', 240), ('fail_wf', 240)], keep='ov'),
+    'C01': dict(xcheck=True, streams=[('td_class', 480), ('td_wf', 880), ('td_coarse', 320), ('fail_wf', 200), ('panic', 240), ('multi', 40), ('inj_cycle', 240)], keep='om'),
+    'C02': dict(streams=[('td_exact', 880), ('td_wf', 480), ('td_mid', 160), ('panic', 240), ('fail_wf', 240), ('fail_exact', 320)], keep='ov'),
     'C03': dict(streams=[('bu_class', 320), ('bu_wf', 720), ('mixed_wf', 320), ('newreq', 160), ('cutoff_newreq', 160), ('reported_products', 160), ('fail_bu', 200), ('mid_session', 160)], keep='ovm', extra='lossy'),
     'C04': dict(xcheck=True, streams=[('bu_class', 320), ('bu_wf', 960), ('mixed_wf', 160), ('newreq', 160), ('cutoff_newreq', 240), ('reported_products', 120), ('abort_bu', 240)], keep='ov'),
-    'C05': dict(streams=[('inj_hidden', 1200), ('siblings', 240), ('td_wf', 160), ('same_session', 80), ('chain_readers', 160), ('newreq', 240)], keep='om', extra='wabort'),
+    'C05': dict(streams=[('inj_hidden', 1200), ('siblings', 240), ('td_wf', 160), ('same_session', 80), ('chain_readers', 160), ('newreq', 240), ('cycle_then_hidden', 160)], keep='om', extra='wabort'),
     'C06': dict(streams=[('inj_overlap', 1200), ('td_wf', 160), ('same_session', 80), ('newreq', 160)], keep='om', extra='wabort'),
     'C07': dict(streams=[('inj_cycle', 880), ('reorder_cycle', 240), ('cycle_query', 240), ('newreq', 160), ('mid_session', 240)], keep='ov'),
     'C08': dict(xcheck=True, streams=[('td_wf', 560), ('bu_wf', 320), ('multi', 80), ('panic', 240), ('abort_bu', 120), ('newreq', 160), ('same_abort', 80), ('fail_wf', 160)], keep='od'),
@@ -54,6 +54,9 @@ def make_case(rng, stream, big=False):
     if stream == 'abort_bu':
         p, steps, meta = P.gen_abort_bu_program(rng)
         return p, steps, norm_meta(meta, 'mixed')
+    if stream == 'cycle_then_hidden':
+        p, steps = P.gen_cycle_then_hidden_program(rng)
+        return p, steps, norm_meta({}, 'td')
     if stream == 'cycle_query':
         p, steps = P.gen_cycle_after_query_program(rng)
         return p, steps, norm_meta({}, 'td')
@@ -81,8 +84,8 @@ def make_case(rng, stream, big=False):
         steps = [['E', '0', '1'], ['S', '1', 'q', '0'], ['E', '0', '2'], ['S', '1', 'q', '0'], ['S', '1', 'q', '0']]
         return p, steps, norm_meta({}, 'td')
     P.NEAR[0] = stream in ('near_td', 'near_bu')      # requires with the tolerance checker (a verdict depends on exactly which stamp is stored)
-    exact = stream == 'td_exact' or (stream == 'panic' and rng.random() < 0.5)      # half of the panic programs use exact checkers only
-    fail = stream in ('fail_wf', 'failstamp', 'fail_bu', 'fail_mixed', 'fail_panic')
+    exact = stream in ('td_exact', 'fail_exact') or (stream == 'panic' and rng.random() < 0.5)      # half of the panic programs use exact checkers only
+    fail = stream in ('fail_wf', 'failstamp', 'fail_bu', 'fail_mixed', 'fail_panic', 'fail_exact')
     coarse = stream == 'td_coarse'
     p = P.gen_wf_program(rng, nt, exact_only=exact, allow_fail=fail, coarse_writers=coarse, norepeat=(stream in ('td_class', 'bu_class')))
     mode = 'td'
@@ -306,6 +309,7 @@ def run(prop, tier, seed, replay=None):
             dist['checker_errors'] += len(s.errs)
         if nx >= 2 and len(sessions) >= 2:
             nontrivial.add(' '.join(toks))
+        meta = dict(meta); meta['env_at'] = O.env_at(toks)
         fs = O.run_oracles(prog, meta, sessions)
         if meta.get('only_sigs'):
             fs = [f for f in fs if f[1] in meta['only_sigs']]
@@ -579,6 +583,7 @@ def shrink_case(exe_impl, prog, steps, meta, prop, sig, msg):
         m2 = {'mode': meta.get('mode'),
               'repeat_steps': set(remapidx[x] for x in meta.get('repeat_steps', ()) if x in remapidx),
               'probe_steps': {remapidx[k]: remapidx[v] for k, v in meta.get('probe_steps', {}).items() if k in remapidx and v in remapidx and remapidx[k] > remapidx[v] and all(st[j][0] == 'F' for j in range(remapidx[v] + 1, remapidx[k]))}}
+        m2['env_at'] = O.env_at(toks)
         for (pr, sg, m) in O.run_oracles(prog, m2, sessions):
             pr2, sg2 = remap(prog, pr, sg, toks)
             if mine(prop, pr2, sg2) and sg2 == sig:
